@@ -152,3 +152,63 @@ Example lzma_example_decodes :
   | inr _ => (DataError, [], [])
   end = (Finished, [97; 98; 99; 97; 98; 99; 97; 98; 99; 100; 98; 99; 100; 100; 100; 100; 100; 100; 100; 0], [1; 2; 3]).
 Proof. vm_compute. reflexivity. Qed.
+
+(** LZMA2.  [chunks_bytes] frames LZMA-coded and stored chunks as lzma2_encoder.c
+    does (control byte with reset level and size bits, sizes minus one, optional
+    properties byte), [l2_run] is the LZMA2 decoder specification.  For every
+    chunk sequence that is encodable in its state (sizes within the format
+    limits, properties/dictionary resets where the decoder needs them, valid
+    symbols), followed by the end byte: Finished, output = the expansions in
+    order, exactly the encoder's bytes consumed. *)
+From XZ Require Import Lzma2 Lzma2Enc.
+Theorem lzma2_stream_lossless : forall dict_size fuel cs (s : l2) rest,
+  l2status s = Running ->
+  chunks_ok dict_size fuel (norm s) cs ->
+  l2in s = chunks_bytes (norm s) cs ++ 0 :: rest ->
+  (length cs < Pos.to_nat fuel)%nat ->
+  let r := l2_run dict_size fuel s in
+  l2status r = Finished /\ l2in r = rest /\
+  l2out r = l2out (chunks_final (norm s) cs) /\
+  l2used r = l2used s + lenN (chunks_bytes (norm s) cs) + 1.
+Proof. exact lzma2_stream_roundtrip. Qed.
+Print Assumptions lzma2_stream_lossless.
+
+(* non-vacuity: an LZMA chunk with dictionary reset, a stored chunk, an LZMA chunk continuing the state *)
+Definition ex_chunks : list l2chunk :=
+  [KL 3 93 [SLit 97; SLit 98; SLit 99; SMatch 2 5; SShortRep];
+   KU false [1; 2; 3; 4];
+   KL 0 0 [SLit 100; SLongRep 0 3; SMatch 0 2]].
+Ltac comp_goal := vm_compute; repeat split; try reflexivity; try (let H := fresh in intro H; discriminate H); try (left; reflexivity); auto.
+Lemma ex_ps_ok s p z syms : all_ok (zps z) -> valid_run p 4096 z syms -> l2ps s = zps (snd (enc_run p z syms)) -> all_ok (l2ps s).
+Proof. intros H V E. rewrite E. exact (proj2 (enc_run_ok p 4096 syms z H V)). Qed.
+
+Example lzma2_example_ok : chunks_ok 4096 64 (norm (l2_init [] [])) ex_chunks.
+Proof.
+  set (s0 := norm (l2_init [] [])).
+  assert (C1 : chunk_ok 4096 64 s0 (KL 3 93 [SLit 97; SLit 98; SLit 99; SMatch 2 5; SShortRep])).
+  { cbn [chunk_ok]. replace (kl_props s0 3 93) with (Some ex_pr) by (vm_compute; reflexivity).
+    constructor; [lia|vm_compute; reflexivity|intro H; lia|intro H; lia|apply all_ok_empty| | | | |];
+      [vm_compute; split; intro H; discriminate H|comp_goal|vm_compute; reflexivity|vm_compute; split; intro H; discriminate H|vm_compute; lia]. }
+  cbn [chunks_ok ex_chunks]. split; [exact C1|].
+  set (s1 := norm (chunk_after s0 (KL 3 93 [SLit 97; SLit 98; SLit 99; SMatch 2 5; SShortRep]) [])).
+  split; [split; [vm_compute; split; intro H; discriminate H|intro; reflexivity]|].
+  set (s2 := norm (chunk_after s1 (KU false [1; 2; 3; 4]) [])).
+  split; [|exact I].
+  cbn [chunk_ok]. replace (kl_props s2 0 0) with (Some ex_pr) by (vm_compute; reflexivity).
+  constructor; [lia|vm_compute; reflexivity|intro H; reflexivity|intro H; reflexivity| | | | | |].
+  - apply (ex_ps_ok s2 ex_pr (kl_start s0 3 9) [SLit 97; SLit 98; SLit 99; SMatch 2 5; SShortRep]).
+    + apply all_ok_empty.
+    + comp_goal.
+    + vm_compute. reflexivity.
+  - vm_compute; split; intro H; discriminate H.
+  - comp_goal.
+  - vm_compute; reflexivity.
+  - vm_compute; split; intro H; discriminate H.
+  - vm_compute; lia.
+Qed.
+
+Example lzma2_example_decodes :
+  lzma2_decode 4096 64 (chunks_bytes (norm (l2_init [] [])) ex_chunks ++ [0; 77]) =
+  (Finished, [97; 98; 99; 97; 98; 99; 97; 98; 99; 1; 2; 3; 4; 100; 3; 4; 100; 100; 100],
+   lenN (chunks_bytes (norm (l2_init [] [])) ex_chunks) + 1).
+Proof. vm_compute. reflexivity. Qed.
